@@ -25,6 +25,7 @@
 
 class Protocol:  # pylint: disable=too-few-public-methods
     SMSG_PUBLIC_KEY = 2
+    MSG_IGNORE = 2
     MSG_DEBUG = 4
     MSG_KEXINIT = 20
     MSG_NEWKEYS = 21
